@@ -21,3 +21,23 @@ pub fn u32_circuits() -> [(&'static str, &'static dyn GetBitCircuitInfo); 11] {
         ("identity", &circuits::u32::identity_codgen::OUTPUT_CIRCUITS),
     ]
 }
+
+/// Read / write access to the polynomials of a [`LookupTable`](crate::blind_rotation::LookupTable)
+/// (its fields are crate-private), the recorded drift, and the crate-private `rotate`.
+pub mod lut {
+    use crate::blind_rotation::{LookupTable, LookupTableFactory};
+    use poulpy_hal::layouts::VecZnx;
+
+    pub fn data(t: &LookupTable) -> &Vec<VecZnx<Vec<u8>>> {
+        &t.data
+    }
+    pub fn data_mut(t: &mut LookupTable) -> &mut Vec<VecZnx<Vec<u8>>> {
+        &mut t.data
+    }
+    pub fn drift(t: &LookupTable) -> usize {
+        t.drift
+    }
+    pub fn rotate<M: LookupTableFactory>(t: &mut LookupTable, module: &M, k: i64) {
+        t.rotate(module, k)
+    }
+}
